@@ -152,7 +152,7 @@ class Cell(NullCell):
         for li in range(0, level + 1):
             if not self.level_mask.is_significant(li):
                 continue
-            if li < hash_index_offset:  # change to range(offset level+1)
+            if hash_index < hash_index_offset:  # skip the hashes a pruned branch only stores
                 hash_index += 1
                 continue
             dsc = self.get_descriptors(self.level_mask.apply(li))
